@@ -120,5 +120,181 @@ func VerifC03_BedStructured() {
 	verifReach("end")
 }
 
-var _ = color.RGBA{}
-var _ = seq.Plus
+// printable, tab-free, not starting with '#', no leading/trailing blank
+func verifText(name string, n int) string {
+	b := make([]byte, n)
+	for i := range b {
+		lo := byte(0x20)
+		if i == 0 || i == n-1 {
+			lo = 0x21
+		}
+		b[i] = verifByte(name+string(rune('a'+i)), lo, 0x7e)
+	}
+	verifAssume(b[0] != '#')
+	return string(b)
+}
+
+// verifCoord: the field selected by param "wide" ranges over [-99,999] (all sign and digit-count
+// classes); the other numeric fields stay symbolic in [0,9]. Jobs rotate the wide field, which
+// keeps the number of decimal-shape paths additive instead of multiplicative.
+func verifCoord(name string) int {
+	if verifWide(name) {
+		return verifInt(name, -99, 999)
+	}
+	return verifInt(name, 1, 9) // one decimal shape: no sign, one digit, no base prefix
+}
+
+var verifWideNames = []string{"start", "end", "score", "tstart", "tend", "bs0", "bo0", "r", "g", "b", "bs1", "bo1"}
+
+func verifWide(name string) bool {
+	w := verifParam("wide")
+	return w >= 0 && w < len(verifWideNames) && verifWideNames[w] == name
+}
+
+// VerifC02_Bed: a BED-n record written at width m <= n reads back as its first m columns.
+func VerifC02_Bed() {
+	n, m := verifParam("n"), verifParam("m")
+	tl := verifParam("textlen")
+	b12 := &Bed12{
+		Chrom: verifText("chrom", tl), ChromStart: verifCoord("start"), ChromEnd: verifCoord("end"),
+		FeatName: verifText("name", tl), FeatScore: verifCoord("score"),
+		FeatStrand: seq.Strand(verifInt("strand", -1, 1)),
+		ThickStart: verifCoord("tstart"), ThickEnd: verifCoord("tend"),
+	}
+	if verifBool("colored") {
+		comp := func(name string) byte {
+			if verifWide(name) {
+				return verifByte(name, 0, 255)
+			}
+			return verifByte(name, 1, 9)
+		}
+		b12.Rgb = color.RGBA{R: comp("r"), G: comp("g"), B: comp("b"), A: 0xff}
+	}
+	nb := verifParam("blocks")
+	b12.BlockCount = nb
+	for i := 0; i < nb; i++ {
+		b12.BlockSizes = append(b12.BlockSizes, verifCoord("bs"+string(rune('0'+i))))
+		b12.BlockStarts = append(b12.BlockStarts, verifCoord("bo"+string(rune('0'+i))))
+	}
+	var rec Bed
+	switch n {
+	case 3:
+		rec = &Bed3{b12.Chrom, b12.ChromStart, b12.ChromEnd}
+	case 4:
+		rec = &Bed4{b12.Chrom, b12.ChromStart, b12.ChromEnd, b12.FeatName}
+	case 5:
+		rec = &Bed5{b12.Chrom, b12.ChromStart, b12.ChromEnd, b12.FeatName, b12.FeatScore}
+	case 6:
+		rec = &Bed6{b12.Chrom, b12.ChromStart, b12.ChromEnd, b12.FeatName, b12.FeatScore, b12.FeatStrand}
+	default:
+		rec = b12
+	}
+	var buf bytes.Buffer
+	w, err := NewWriter(&buf, m)
+	verifAssert(err == nil, "writer-accepts-width")
+	cnt, err := w.Write(rec)
+	verifAssert(err == nil, "write-succeeds")
+	verifAssert(cnt == buf.Len(), "reported-byte-count-equals-bytes-emitted")
+	r, err := NewReader(bytes.NewReader(buf.Bytes()), m)
+	verifAssert(err == nil, "reader-accepts-width")
+	f, err := r.Read()
+	verifAssert(err == nil && f != nil, "read-back-succeeds")
+	if err != nil || f == nil {
+		return
+	}
+	var g Bed12
+	switch v := f.(type) {
+	case *Bed3:
+		g = Bed12{Chrom: v.Chrom, ChromStart: v.ChromStart, ChromEnd: v.ChromEnd}
+	case *Bed4:
+		g = Bed12{Chrom: v.Chrom, ChromStart: v.ChromStart, ChromEnd: v.ChromEnd, FeatName: v.FeatName}
+	case *Bed5:
+		g = Bed12{Chrom: v.Chrom, ChromStart: v.ChromStart, ChromEnd: v.ChromEnd, FeatName: v.FeatName, FeatScore: v.FeatScore}
+	case *Bed6:
+		g = Bed12{Chrom: v.Chrom, ChromStart: v.ChromStart, ChromEnd: v.ChromEnd, FeatName: v.FeatName, FeatScore: v.FeatScore, FeatStrand: v.FeatStrand}
+	case *Bed12:
+		g = *v
+	}
+	verifAssert(g.Chrom == b12.Chrom && g.ChromStart == b12.ChromStart && g.ChromEnd == b12.ChromEnd, "first-three-columns")
+	if m >= 4 {
+		verifAssert(g.FeatName == b12.FeatName, "name-column")
+	}
+	if m >= 5 {
+		verifAssert(g.FeatScore == b12.FeatScore, "score-column")
+	}
+	if m >= 6 {
+		verifAssert(g.FeatStrand == b12.FeatStrand, "strand-column")
+	}
+	if m >= 12 {
+		verifAssert(g.ThickStart == b12.ThickStart && g.ThickEnd == b12.ThickEnd, "thick-columns")
+		verifAssert(g.Rgb == b12.Rgb, "colour-column")
+		verifAssert(g.BlockCount == nb && len(g.BlockSizes) == nb && len(g.BlockStarts) == nb, "block-count")
+		if len(g.BlockSizes) == nb && len(g.BlockStarts) == nb {
+			for i := 0; i < nb; i++ {
+				verifAssert(g.BlockSizes[i] == b12.BlockSizes[i] && g.BlockStarts[i] == b12.BlockStarts[i], "block-columns")
+			}
+		}
+	}
+	_, err = r.Read()
+	verifAssert(err == io.EOF, "single-record-then-eof")
+	verifObserve("c02bed", n, m, buf.Len())
+	verifReach("end")
+}
+
+// VerifC04_Bed: CRLF or LF, with or without a final newline, give the same features.
+func VerifC04_Bed() {
+	bedType := verifParam("bedtype")
+	nrec := verifParam("records")
+	var text []byte
+	for k := 0; k < nrec; k++ {
+		ks := string(rune('0' + k))
+		line := [][]byte{[]byte(verifText("c"+ks, 1)), []byte("1" + ks), []byte("2" + ks), []byte(verifText("n"+ks, 1)), []byte("7"), {verifByte("s"+ks, 0x21, 0x7e)},
+			[]byte("1"), []byte("2"), []byte("0"), []byte("1"), []byte("5"), []byte("0")}
+		text = append(text, bytes.Join(line[:bedType], []byte{'\t'})...)
+		text = append(text, '\n')
+	}
+	parse := func(t []byte) (out []string, errs int) {
+		r, _ := NewReader(bytes.NewReader(t), bedType)
+		for k := 0; k < nrec+2; k++ {
+			f, err := r.Read()
+			if err == io.EOF {
+				return
+			}
+			if err != nil {
+				errs++
+				continue
+			}
+			out = append(out, f.Location().Name()+":"+string(rune('0'+f.Start()%10))+string(rune('0'+f.End()%10)))
+		}
+		return
+	}
+	base, berrs := parse(text)
+	var alt []byte
+	switch verifChoice("transform", 3) {
+	case 0:
+		for _, c := range text {
+			if c == '\n' {
+				alt = append(alt, '\r')
+			}
+			alt = append(alt, c)
+		}
+	case 1:
+		alt = append(alt, text[:len(text)-1]...)
+	case 2:
+		for _, c := range text[:len(text)-1] {
+			if c == '\n' {
+				alt = append(alt, '\r')
+			}
+			alt = append(alt, c)
+		}
+	}
+	got, gerrs := parse(alt)
+	verifAssert(len(got) == len(base) && gerrs == berrs, "layout-same-number-of-features")
+	if len(got) == len(base) {
+		for k := range got {
+			verifAssert(got[k] == base[k], "layout-same-features")
+		}
+	}
+	verifObserve("c04bed", bedType, nrec, len(base), len(got))
+	verifReach("end")
+}
